@@ -40,3 +40,42 @@ M("c01_join_skips_empty_first", ["C01"],
 M("c01_zero_copy_single_read", ["C01"],
   ("lomond/parser.py", "                    self._awaiting = self._gen.send(_buffer[:])\n                    del _buffer[:]\n\n            # Awaiting a read until",
    "                    self._awaiting = self._gen.send(chunk if len(chunk) == len(_buffer) else _buffer[:])\n                    del _buffer[:]\n\n            # Awaiting a read until"))
+
+# ---- C04 -----------------------------------------------------------------
+M("c04_no_frame_validate", ["C04"],
+  ("lomond/frame_parser.py", "                frame.validate()\n", "                pass\n"))
+M("c04_no_mask_check", ["C04"],
+  ("lomond/frame_parser.py", "        if frame.mask:\n", "        if False:\n"))
+M("c04_no_nothing_to_continue_check", ["C04"],
+  ("lomond/stream.py", "                if frame.is_continuation and not self._frames:", "                if False:"))
+M("c04_no_expected_continuation_check", ["C04"],
+  ("lomond/stream.py", "                if not frame.is_continuation and self._frames:", "                if False:"))
+M("c04_1005_allowed", ["C04"],
+  ("lomond/status.py", "        1004, 1005, 1006, 1014, 1015, 1016", "        1004, 1006, 1014, 1015, 1016"))
+M("c04_revert_fix_control_length", ["C04"],
+  ("lomond/frame_parser.py", "                if frame.is_control and payload_length > 125:", "                if False:"))
+M("c04_no_disconnect_after_protocol_error", ["C04"],
+  ("lomond/websocket.py", "            self.close(Status.PROTOCOL_ERROR, six.text_type(error))\n            self.force_disconnect()",
+   "            self.close(Status.PROTOCOL_ERROR, six.text_type(error))"))
+M("c04_rsv3_ignored", ["C04"],
+  ("lomond/frame.py", "        if self.rsv1 or self.rsv2 or self.rsv3:", "        if self.rsv1 or self.rsv2:"))
+M("c04_compressed_rsv2_ignored", ["C04"],
+  ("lomond/frame.py", "        if self.rsv2 or self.rsv3:", "        if self.rsv3:"))
+M("c04_payload_too_large_off_by_one", ["C04"],
+  ("lomond/frame_parser.py", "if payload_length > 0x7fffffffffffffff:", "if payload_length > 0x8000000000000000:"))
+M("c04_close_1_byte_ok", ["C04"],
+  ("lomond/message.py", "        if len(payload) == 1:", "        if len(payload) == 1 and payload != b'\\x03':"))
+M("c04_opcode_0xb_not_reserved", ["C04"],
+  ("lomond/opcode.py", "    Opcode.RESERVED6,\n", ""))
+M("c04_validate_order_swapped", ["C04"],
+  ("lomond/frame.py", """        self.validate_reserved_bits()
+        if is_reserved(self.opcode):
+            raise errors.ProtocolError(
+                "opcode is reserved"
+            )
+""", """        if is_reserved(self.opcode):
+            raise errors.ProtocolError(
+                "opcode is reserved"
+            )
+        self.validate_reserved_bits()
+"""), equivalent=True)
